@@ -707,8 +707,9 @@ func c16Guard(c *Ctx) {
 			src, ok := ind.Args[1].(TConv)
 			good := ok
 			if good {
+				// self.String(), or String's own body self.serialize() spelled out (String ≡ serialize of the ego: C16.R3 / C02.R4)
 				nm, args, ok := v.selfCall(src.X)
-				good = ok && nm == "String" && len(args) == 0
+				good = ok && (nm == "String" || nm == "serialize") && len(args) == 0
 			}
 			if !good {
 				msg = "the source is not []byte(self.String()) of the same receiver"
